@@ -128,7 +128,18 @@ func (p *Machine) Run(instructions []byte, localSubrs, globalSubrs [][]byte, han
 	p.ArgStack.Top = 0
 	p.callStack.top = 0
 
-	for len(p.instructions) > 0 {
+	for {
+		if len(p.instructions) == 0 {
+			if p.callStack.top == 0 {
+				break
+			}
+			// CFF2 subroutines have no 'return' operator: the end of a
+			// subroutine resumes its caller.
+			if err := p.Return(); err != nil {
+				return err
+			}
+			continue
+		}
 		// Push a numeric operand on the stack, if applicable.
 		if hasResult, err := p.parseNumber(); hasResult {
 			if err != nil {
